@@ -1,6 +1,6 @@
 //! "L": the light instantiation of the generic reconciliation code in `ranger.rs`.
 //!
-//! Entry type `LE { key: <= 2 bytes, value: u8 }`, store = fixed array of slots implementing
+//! Entry type `LE { key: <= 2 bytes over {0,1} (7 keys, by rank), value: u8 }`, store = one slot per key implementing
 //! `ranger::Store<LE>` with the plain ordered-map definitions of the primitives.  Kani verifies one
 //! monomorphisation at a time: harnesses over L exercise the *generic* code of `ranger.rs`
 //! (`put`, `process_message`, `Message::init`), not `SignedEntry`-specific behaviour.
@@ -9,83 +9,35 @@ use std::cmp::Ordering;
 use crate::ranger::{Fingerprint, InsertOutcome, Range, RangeEntry, RangeKey, RangeValue, Store};
 use crate::verif_incrate::src::{ck, cv, Src};
 
-pub const KMAX: usize = 2;
+pub const NKEYS: usize = 7;
 
-/// Key: byte string of length <= 2 (lexicographic order, prefix relation as for real keys).
-#[derive(Clone, Copy, Debug)]
+/// Key: a byte string of length <= 2 over the alphabet {0, 1}, represented by its rank in
+/// lexicographic order: 0 "", 1 "0", 2 "00", 3 "01", 4 "1", 5 "10", 6 "11".  The derived integer
+/// order IS the lexicographic order of the strings, so no comparison loops are needed.
+#[derive(Clone, Copy, Debug, PartialEq, Eq, PartialOrd, Ord, Default)]
 pub struct LK {
-    pub len: u8,
-    pub b: [u8; KMAX],
+    pub code: u8,
 }
+
+/// PREFIX[a][b]: key a is a (proper or improper) prefix of key b
+const PREFIX: [[bool; NKEYS]; NKEYS] = [
+    [true, true, true, true, true, true, true],       // ""
+    [false, true, true, true, false, false, false],   // "0"
+    [false, false, true, false, false, false, false], // "00"
+    [false, false, false, true, false, false, false], // "01"
+    [false, false, false, false, true, true, true],   // "1"
+    [false, false, false, false, false, true, false], // "10"
+    [false, false, false, false, false, false, true], // "11"
+];
 
 impl LK {
-    pub fn bytes(&self) -> &[u8] {
-        &self.b[..self.len as usize]
-    }
     pub fn is_prefix_of(&self, other: &LK) -> bool {
-        // self is a prefix of other
-        if self.len > other.len {
-            return false;
-        }
-        let mut i = 0;
-        while i < KMAX {
-            if i < self.len as usize && self.b[i] != other.b[i] {
-                return false;
-            }
-            i += 1;
-        }
-        true
+        PREFIX[self.code as usize][other.code as usize]
     }
     pub fn any<S: Src>(s: &mut S) -> LK {
-        let len = s.u8();
-        s.assume(len as usize <= KMAX);
-        let mut b: [u8; KMAX] = s.arr();
-        // normalise unused bytes so that derived equality on the struct is key equality
-        let mut i = 0;
-        while i < KMAX {
-            if i >= len as usize {
-                b[i] = 0;
-            }
-            i += 1;
-        }
-        LK { len, b }
-    }
-}
-impl PartialEq for LK {
-    fn eq(&self, o: &Self) -> bool {
-        self.cmp(o) == Ordering::Equal
-    }
-}
-impl Eq for LK {}
-impl PartialOrd for LK {
-    fn partial_cmp(&self, o: &Self) -> Option<Ordering> {
-        Some(self.cmp(o))
-    }
-}
-impl Ord for LK {
-    fn cmp(&self, o: &Self) -> Ordering {
-        let mut i = 0;
-        while i < KMAX {
-            let a_in = i < self.len as usize;
-            let b_in = i < o.len as usize;
-            match (a_in, b_in) {
-                (false, false) => return Ordering::Equal,
-                (false, true) => return Ordering::Less,
-                (true, false) => return Ordering::Greater,
-                (true, true) => {
-                    if self.b[i] != o.b[i] {
-                        return self.b[i].cmp(&o.b[i]);
-                    }
-                }
-            }
-            i += 1;
-        }
-        Ordering::Equal
-    }
-}
-impl Default for LK {
-    fn default() -> Self {
-        LK { len: 0, b: [0; KMAX] }
+        let code = s.u8();
+        s.assume((code as usize) < NKEYS);
+        LK { code }
     }
 }
 impl RangeKey for LK {
@@ -115,36 +67,32 @@ impl RangeEntry for LE {
     fn value(&self) -> &u8 {
         &self.value
     }
-    /// Ideal hash on the finite L domain: one bit per (key, value mod 8) so that the XOR of
-    /// fingerprints is the characteristic vector of the set (no collisions inside the bound).
+    /// Ideal hash on the finite L domain: one bit per (key, value mod 4) so that the XOR of
+    /// fingerprints is the characteristic vector of the set (no collisions inside the bound;
+    /// harnesses that use fingerprints restrict values to 0..3).
     fn as_fingerprint(&self) -> Fingerprint {
         let mut f = [0u8; 32];
-        // key index: len 0 -> 0; len 1 -> 1 + b0 (b0 < 2); len 2 -> 3 + 2*b0 + b1   (b < 2)
-        let ki = match self.key.len {
-            0 => 0usize,
-            1 => 1 + (self.key.b[0] & 1) as usize,
-            _ => 3 + 2 * (self.key.b[0] & 1) as usize + (self.key.b[1] & 1) as usize,
-        };
-        let bit = ki * 4 + (self.value & 3) as usize; // < 28
+        let bit = (self.key.code as usize) * 4 + (self.value & 3) as usize; // < 28
         f[bit / 8] = 1 << (bit % 8);
         Fingerprint(f)
     }
 }
 
-/// Fixed-capacity set of entries (at most one per key): the reference ordered map.
+/// The reference ordered map: one optional value per key, indexed by key rank (so iteration in
+/// index order is iteration in key order).  `N` only bounds how many entries `any` creates.
 #[derive(Clone, Copy, Debug)]
 pub struct LStore<const N: usize> {
-    pub slots: [Option<LE>; N],
+    pub vals: [Option<u8>; NKEYS],
 }
 
-pub struct LIter<const N: usize> {
-    items: [Option<LE>; N],
+pub struct LIter {
+    items: [Option<LE>; NKEYS],
     i: usize,
 }
-impl<const N: usize> Iterator for LIter<N> {
+impl Iterator for LIter {
     type Item = Result<LE, std::convert::Infallible>;
     fn next(&mut self) -> Option<Self::Item> {
-        while self.i < N {
+        while self.i < NKEYS {
             let it = self.items[self.i];
             self.i += 1;
             if let Some(e) = it {
@@ -155,57 +103,39 @@ impl<const N: usize> Iterator for LIter<N> {
     }
 }
 
-#[derive(Debug)]
-pub struct Never;
-impl From<Never> for anyhow::Error {
-    fn from(_: Never) -> Self {
-        unreachable!()
-    }
-}
-
 impl<const N: usize> LStore<N> {
     pub fn empty() -> Self {
-        LStore { slots: [None; N] }
+        LStore { vals: [None; NKEYS] }
     }
-    /// Arbitrary store with at most `max` entries and unique keys.
+    /// Arbitrary store with at most `max` entries.
     pub fn any<S: Src>(s: &mut S, max: usize) -> Self {
         let mut st = Self::empty();
         let mut i = 0;
-        while i < N {
-            if i < max && s.bool() {
-                st.slots[i] = Some(LE::any(s));
+        while i < NKEYS {
+            if s.bool() {
+                st.vals[i] = Some(s.u8());
             }
             i += 1;
         }
-        s.assume(st.keys_unique());
+        s.assume(st.count() <= max);
         st
     }
+    pub fn get(&self, k: &LK) -> Option<LE> {
+        self.vals[k.code as usize].map(|v| LE { key: *k, value: v })
+    }
     pub fn keys_unique(&self) -> bool {
-        let mut i = 0;
-        while i < N {
-            let mut j = i + 1;
-            while j < N {
-                if let (Some(a), Some(b)) = (self.slots[i], self.slots[j]) {
-                    if a.key == b.key {
-                        return false;
-                    }
-                }
-                j += 1;
-            }
-            i += 1;
-        }
         true
     }
     /// The invariant `put` maintains: no entry has a (proper or improper) prefix entry that is
     /// not older.
     pub fn pruned(&self) -> bool {
         let mut i = 0;
-        while i < N {
+        while i < NKEYS {
             let mut j = 0;
-            while j < N {
-                if i != j {
-                    if let (Some(a), Some(b)) = (self.slots[i], self.slots[j]) {
-                        if a.key.is_prefix_of(&b.key) && a.value >= b.value {
+            while j < NKEYS {
+                if i != j && PREFIX[i][j] {
+                    if let (Some(a), Some(b)) = (self.vals[i], self.vals[j]) {
+                        if a >= b {
                             return false;
                         }
                     }
@@ -217,65 +147,35 @@ impl<const N: usize> LStore<N> {
         true
     }
     pub fn contains(&self, e: &LE) -> bool {
-        let mut i = 0;
-        while i < N {
-            if let Some(x) = self.slots[i] {
-                if x == *e {
-                    return true;
-                }
-            }
-            i += 1;
-        }
-        false
+        self.vals[e.key.code as usize] == Some(e.value)
     }
     pub fn count(&self) -> usize {
         let mut n = 0;
         let mut i = 0;
-        while i < N {
-            if self.slots[i].is_some() {
+        while i < NKEYS {
+            if self.vals[i].is_some() {
                 n += 1;
             }
             i += 1;
         }
         n
     }
-    pub fn subset_of(&self, o: &Self) -> bool {
-        let mut i = 0;
-        while i < N {
-            if let Some(x) = self.slots[i] {
-                if !o.contains(&x) {
-                    return false;
-                }
-            }
-            i += 1;
-        }
-        true
-    }
     pub fn same_set(&self, o: &Self) -> bool {
-        self.subset_of(o) && o.subset_of(self)
+        self.vals == o.vals
     }
-    /// sorted copy of the entries (selection sort on the fixed array), `None`s last
-    fn sorted(&self) -> [Option<LE>; N] {
-        let mut a = self.slots;
+    fn items(&self, keep: impl Fn(&LK) -> bool) -> [Option<LE>; NKEYS] {
+        let mut items = [None; NKEYS];
         let mut i = 0;
-        while i < N {
-            let mut m = i;
-            let mut j = i + 1;
-            while j < N {
-                let less = match (a[j], a[m]) {
-                    (Some(x), Some(y)) => x.key < y.key,
-                    (Some(_), None) => true,
-                    _ => false,
-                };
-                if less {
-                    m = j;
+        while i < NKEYS {
+            let k = LK { code: i as u8 };
+            if let Some(v) = self.vals[i] {
+                if keep(&k) {
+                    items[i] = Some(LE { key: k, value: v });
                 }
-                j += 1;
             }
-            a.swap(i, m);
             i += 1;
         }
-        a
+        items
     }
 }
 
@@ -289,18 +189,22 @@ fn in_range(r: &Range<LK>, k: &LK) -> bool {
 
 impl<const N: usize> Store<LE> for LStore<N> {
     type Error = std::convert::Infallible;
-    type RangeIterator<'a> = LIter<N>;
-    type ParentIterator<'a> = LIter<N>;
+    type RangeIterator<'a> = std::iter::Chain<LIter, LIter>;
+    type ParentIterator<'a> = LIter;
 
     fn get_first(&mut self) -> Result<LK, Self::Error> {
-        Ok(match self.sorted()[0] {
-            Some(e) => e.key,
-            None => LK::default(),
-        })
+        let mut i = 0;
+        while i < NKEYS {
+            if self.vals[i].is_some() {
+                return Ok(LK { code: i as u8 });
+            }
+            i += 1;
+        }
+        Ok(LK::default())
     }
     #[cfg(test)]
     fn get(&mut self, key: &LK) -> Result<Option<LE>, Self::Error> {
-        Ok(self.slots.iter().flatten().find(|e| e.key == *key).copied())
+        Ok(LStore::get(self, key))
     }
     #[cfg(test)]
     fn len(&mut self) -> Result<usize, Self::Error> {
@@ -313,10 +217,11 @@ impl<const N: usize> Store<LE> for LStore<N> {
     fn get_fingerprint(&mut self, range: &Range<LK>) -> Result<Fingerprint, Self::Error> {
         let mut fp = Fingerprint::empty();
         let mut i = 0;
-        while i < N {
-            if let Some(e) = self.slots[i] {
-                if in_range(range, &e.key) {
-                    fp ^= e.as_fingerprint();
+        while i < NKEYS {
+            let k = LK { code: i as u8 };
+            if let Some(v) = self.vals[i] {
+                if in_range(range, &k) {
+                    fp ^= LE { key: k, value: v }.as_fingerprint();
                 }
             }
             i += 1;
@@ -324,105 +229,42 @@ impl<const N: usize> Store<LE> for LStore<N> {
         Ok(fp)
     }
     fn entry_put(&mut self, entry: LE) -> Result<(), Self::Error> {
-        let mut i = 0;
-        while i < N {
-            if let Some(e) = self.slots[i] {
-                if e.key == entry.key {
-                    self.slots[i] = Some(entry);
-                    return Ok(());
-                }
-            }
-            i += 1;
-        }
-        let mut i = 0;
-        while i < N {
-            if self.slots[i].is_none() {
-                self.slots[i] = Some(entry);
-                return Ok(());
-            }
-            i += 1;
-        }
-        // capacity exceeded: outside the harness bound (harnesses assume a free slot)
-        #[cfg(kani)]
-        kani::assume(false);
+        self.vals[entry.key.code as usize] = Some(entry.value);
         Ok(())
     }
     /// key order; for a wrap-around range: `[start, y)` first, then `[x, end]` (as the redb store)
-    fn get_range(&mut self, range: Range<LK>) -> Result<LIter<N>, Self::Error> {
-        let sorted = self.sorted();
-        let mut items = [None; N];
-        let mut n = 0;
+    fn get_range(&mut self, range: Range<LK>) -> Result<Self::RangeIterator<'_>, Self::Error> {
         let wrap = range.x() > range.y();
-        let mut pass = 0;
-        while pass < 2 {
-            let mut i = 0;
-            while i < N {
-                if let Some(e) = sorted[i] {
-                    let first_part = if wrap { e.key < *range.y() } else { in_range(&range, &e.key) };
-                    let second_part = wrap && e.key >= *range.x();
-                    if (pass == 0 && first_part) || (pass == 1 && second_part) {
-                        items[n] = Some(e);
-                        n += 1;
-                    }
-                }
-                i += 1;
-            }
-            pass += 1;
-        }
-        Ok(LIter { items, i: 0 })
+        let first = self.items(|k| if wrap { k < range.y() } else { in_range(&range, k) });
+        let second = self.items(|k| wrap && k >= range.x());
+        Ok(LIter { items: first, i: 0 }.chain(LIter { items: second, i: 0 }))
     }
     #[cfg(test)]
-    fn prefixed_by(&mut self, prefix: &LK) -> Result<LIter<N>, Self::Error> {
-        let mut items = self.sorted();
-        for it in items.iter_mut() {
-            if let Some(e) = it {
-                if !prefix.is_prefix_of(&e.key) {
-                    *it = None;
-                }
-            }
-        }
-        Ok(LIter { items, i: 0 })
+    fn prefixed_by(&mut self, prefix: &LK) -> Result<Self::RangeIterator<'_>, Self::Error> {
+        let first = self.items(|k| prefix.is_prefix_of(k));
+        Ok(LIter { items: first, i: 0 }.chain(LIter { items: [None; NKEYS], i: 0 }))
     }
     /// entries whose key is a prefix of `key` (including `key` itself), shortest first
-    fn prefixes_of(&mut self, key: &LK) -> Result<LIter<N>, Self::Error> {
-        let mut items = self.sorted();
-        let mut i = 0;
-        while i < N {
-            if let Some(e) = items[i] {
-                if !e.key.is_prefix_of(key) {
-                    items[i] = None;
-                }
-            }
-            i += 1;
-        }
-        Ok(LIter { items, i: 0 })
+    fn prefixes_of(&mut self, key: &LK) -> Result<LIter, Self::Error> {
+        Ok(LIter { items: self.items(|k| k.is_prefix_of(key)), i: 0 })
     }
     #[cfg(test)]
-    fn all(&mut self) -> Result<LIter<N>, Self::Error> {
-        Ok(LIter { items: self.sorted(), i: 0 })
+    fn all(&mut self) -> Result<Self::RangeIterator<'_>, Self::Error> {
+        Ok(LIter { items: self.items(|_| true), i: 0 }.chain(LIter { items: [None; NKEYS], i: 0 }))
     }
     #[cfg(test)]
     fn entry_remove(&mut self, key: &LK) -> Result<Option<LE>, Self::Error> {
-        for it in self.slots.iter_mut() {
-            if let Some(e) = it {
-                if e.key == *key {
-                    return Ok(it.take());
-                }
-            }
-        }
-        Ok(None)
+        let e = LStore::get(self, key);
+        self.vals[key.code as usize] = None;
+        Ok(e)
     }
-    fn remove_prefix_filtered(
-        &mut self,
-        prefix: &LK,
-        predicate: impl Fn(&u8) -> bool,
-    ) -> Result<usize, Self::Error> {
+    fn remove_prefix_filtered(&mut self, prefix: &LK, predicate: impl Fn(&u8) -> bool) -> Result<usize, Self::Error> {
         let mut n = 0;
         let mut i = 0;
-        while i < N {
-            if let Some(e) = self.slots[i] {
-                if prefix.is_prefix_of(&e.key) && predicate(&e.value) {
-                    self.slots[i] = None;
+        while i < NKEYS {
+            if let Some(v) = self.vals[i] {
+                if PREFIX[prefix.code as usize][i] && predicate(&v) {
+                    self.vals[i] = None;
                     n += 1;
                 }
             }
@@ -439,9 +281,9 @@ impl<const N: usize> Store<LE> for LStore<N> {
 /// Is `e` admitted into `st`?  Exactly when no entry at `e.key` or at a prefix of it is >= e.
 pub fn oracle_admits<const N: usize>(st: &LStore<N>, e: &LE) -> bool {
     let mut i = 0;
-    while i < N {
-        if let Some(x) = st.slots[i] {
-            if x.key.is_prefix_of(&e.key) && x.value >= e.value {
+    while i < NKEYS {
+        if let Some(v) = st.vals[i] {
+            if PREFIX[i][e.key.code as usize] && v >= e.value {
                 return false;
             }
         }
@@ -476,8 +318,8 @@ pub fn put_step<S: Src, const N: usize>(s: &mut S) {
             let mut ok_surv = true;
             let mut want_removed = 0usize;
             let mut i = 0;
-            while i < N {
-                if let Some(x) = pre.slots[i] {
+            while i < NKEYS {
+                if let Some(x) = pre.get(&LK { code: i as u8 }) {
                     if oracle_survives(&x, &e) {
                         ok_surv &= st.contains(&x);
                     } else {
@@ -587,6 +429,7 @@ pub fn pm_item_step<S: Src, const N: usize, const V: usize>(s: &mut S) {
     let range = Range::new(LK::any(s), LK::any(s));
     let have_local = s.bool();
     let mut vals: [LE; V] = [LE { key: LK::default(), value: 0 }; V];
+    s.assume(V == 0 || true);
     let mut i = 0;
     while i < V {
         vals[i] = LE::any(s);
@@ -611,10 +454,10 @@ pub fn pm_item_step<S: Src, const N: usize, const V: usize>(s: &mut S) {
         let e = vals[i];
         if Some(e) != reject && oracle_admits(&want, &e) {
             let mut j = 0;
-            while j < N {
-                if let Some(x) = want.slots[j] {
+            while j < NKEYS {
+                if let Some(x) = want.get(&LK { code: j as u8 }) {
                     if !oracle_survives(&x, &e) {
-                        want.slots[j] = None;
+                        want.vals[j] = None;
                     }
                 }
                 j += 1;
@@ -634,8 +477,8 @@ pub fn pm_item_step<S: Src, const N: usize, const V: usize>(s: &mut S) {
     let mut n_expected = 0;
     let mut ok = true;
     let mut j = 0;
-    while j < N {
-        if let Some(x) = pre.slots[j] {
+    while j < NKEYS {
+        if let Some(x) = pre.get(&LK { code: j as u8 }) {
             let dominated = vals.iter().any(|t| t.key == x.key && t.value >= x.value);
             if in_range(&range, &x.key) && !dominated {
                 n_expected += 1;
@@ -673,6 +516,7 @@ fn mk_message(parts: Vec<MessagePart<LE>>) -> Message<LE> {
 /// with nothing.
 pub fn pm_init_and_silence<S: Src, const N: usize>(s: &mut S) {
     let mut a: LStore<N> = LStore::any(s, N);
+    s.assume(a.vals.iter().all(|v| v.map(|x| x < 4).unwrap_or(true))); // ideal fingerprint domain
     let m = a.initial_message().unwrap();
     ck!(s, m.parts().len() == 1, "the initial message has exactly one part");
     let MessagePart::RangeFingerprint(fp) = &m.parts()[0] else {
@@ -682,8 +526,8 @@ pub fn pm_init_and_silence<S: Src, const N: usize>(s: &mut S) {
     ck!(s, fp.range.is_all(), "the initial message covers the full range");
     let mut all = Fingerprint::empty();
     let mut i = 0;
-    while i < N {
-        if let Some(e) = a.slots[i] {
+    while i < NKEYS {
+        if let Some(e) = a.get(&LK { code: i as u8 }) {
             all ^= e.as_fingerprint();
         }
         i += 1;
